@@ -301,6 +301,17 @@ func (x *Exec) makeClosure(s *State, in *ssa.MakeClosure) {
 			}
 			x.oblige(s, "captures", fmt.Sprintf("%s#%s", x.p.Names[fn], clauseLabel(cl, i)), t, in.Pos(), cl.Props)
 		}
+		// `creation`: what must hold of the captured variables where the closure is made (checked
+		// here only; unlike `captures` it is not an invariant the closure may rely on later)
+		for i, cl := range fc.clauses("creation") {
+			env := x.captureEnv(s, fn, binds)
+			t, err := env.evalBool(cl.Expr)
+			if err != nil {
+				x.unsupported("creation of %s: %v", x.p.Names[fn], err)
+				continue
+			}
+			x.oblige(s, "captures", fmt.Sprintf("%s#creation-%s", x.p.Names[fn], clauseLabel(cl, i)), t, in.Pos(), cl.Props)
+		}
 	}
 	fr.env[in] = scalar(r)
 }
